@@ -1,0 +1,260 @@
+//go:build verif
+
+package jet
+
+// Contracts for lex.go, checked by /verif/jetvc (see /verif/DESIGN.md).
+// This file contains comments only; it is compiled only under the build tag "verif".
+// Contracts are keyed by function name and loop ordinal, never by line number.
+
+// ---- predicates -------------------------------------------------------------------------
+
+//@ pred LexInv(l *lexer) := l != nil && l.items != nil && 0 <= l.start && l.start <= l.pos && l.pos <= len(l.input) && 0 <= l.width && l.width <= 4
+//@ pred PrefixAt(s string, q int, p string) := PrefixAtU(s, q, p)
+//@ pred NotCont(c int) := c < 128 || c >= 192
+//@ pred TrimTracks(l *lexer) := len(l.trimRightDelim) == 2 + len(l.rightDelim) && l.trimRightDelim[0] == ' ' && l.trimRightDelim[1] == '-' && forall(k, 0, len(l.rightDelim), l.trimRightDelim[2+k] == l.rightDelim[k])
+//@ pred Delims(l *lexer) := len(l.leftDelim) > 0 && len(l.rightDelim) > 0 && len(l.leftComment) > 0 && len(l.rightComment) > 0 && TrimTracks(l) && NotCont(l.leftDelim[0]) && NotCont(l.leftComment[0]) && l.rightDelim[0] != ' '
+//@ pred StateReq(l *lexer) := LexInv(l) && Delims(l)
+//@ pred AtRD(l *lexer) := PrefixAt(l.input, l.pos, l.trimRightDelim) || PrefixAt(l.input, l.pos, l.rightDelim)
+//@ pred IsAlnum(r int) := r == '_' || UIsLetter(r) || UIsDigit(r)
+//@ pred IsStateFn(f stateFn) := f == nil || f == lexText || f == lexLeftDelim || f == lexComment || f == lexRightDelim || f == lexInsideAction || f == lexSpace || f == lexIdentifier || f == lexField || f == lexChar || f == lexNumber || f == lexQuote || f == lexRawQuote
+//@ pred EntryOK(f stateFn, l *lexer) := (f == lexLeftDelim ==> PrefixAt(l.input, l.pos, l.leftDelim)) && (f == lexComment ==> PrefixAt(l.input, l.pos, l.leftComment)) && (f == lexRightDelim ==> AtRD(l)) && (f == lexSpace ==> l.pos > l.start) && (f == lexIdentifier ==> l.pos < len(l.input) && IsAlnum(DecRune(l.input[l.pos:])))
+//@ pred Marker(l *lexer, q int) := PrefixAt(l.input, q, l.leftDelim) || PrefixAt(l.input, q, l.leftComment)
+//@ pred NoMarker(l *lexer, a int, b int) := forall(q, a, b, !Marker(l, q))
+//@ pred OperandEnd(t itemType) := t == itemNumber || t == itemIdentifier || t == itemField || t == itemString || t == itemRawString || t == itemCharConstant || t == itemBool || t == itemRightParen || t == itemRightBrackets
+//@ pred SpaceRun(s string, a int, b int) := forall(j, a, b, IsSpaceByte(s[j]))
+
+// ---- helpers ------------------------------------------------------------------------------
+
+//@ func isSpace
+//@   inline
+//@ func isAlphaNumeric
+//@   inline
+
+//@ func (*lexer).next
+//@   props C02 C03
+//@   requires LexInv(l)
+//@   modifies l.pos, l.width
+//@   nopanic
+//@   ensures LexInv(l)
+//@   ensures old(l.pos) >= len(l.input) ==> result == eof && l.width == 0 && l.pos == old(l.pos)
+//@   ensures old(l.pos) < len(l.input) ==> l.width == DecWidth(l.input[old(l.pos):]) && result == DecRune(l.input[old(l.pos):]) && l.pos == old(l.pos) + l.width && l.width >= 1
+
+//@ func (*lexer).backup
+//@   props C02 C03
+//@   requires LexInv(l) && l.width <= l.pos - l.start
+//@   modifies l.pos
+//@   nopanic
+//@   ensures LexInv(l) && l.pos == old(l.pos) - l.width
+
+//@ func (*lexer).peek
+//@   props C02 C03
+//@   requires LexInv(l)
+//@   modifies l.pos, l.width
+//@   nopanic
+//@   ensures LexInv(l) && l.pos == old(l.pos)
+//@   ensures l.pos >= len(l.input) ==> result == eof && l.width == 0
+//@   ensures l.pos < len(l.input) ==> l.width == DecWidth(l.input[l.pos:]) && result == DecRune(l.input[l.pos:]) && l.width >= 1
+
+//@ func (*lexer).ignore
+//@   props C02 C03
+//@   requires LexInv(l)
+//@   modifies l.start
+//@   nopanic
+//@   ensures l.start == l.pos
+
+//@ func (*lexer).emit
+//@   props C02 C03 C04
+//@   requires LexInv(l)
+//@   modifies l.start, l.lastType, sent l.items
+//@   nopanic
+//@   ensures l.start == l.pos && l.lastType == t
+//@   ensures sent(l.items) == snoc(old(sent(l.items)), item{t, old(l.start), l.input[old(l.start):l.pos]})
+
+//@ func (*lexer).errorf
+//@   props C02
+//@   requires LexInv(l)
+//@   modifies sent l.items
+//@   nopanic
+//@   ensures [error-is-an-item] result == nil && trinit(sent(l.items)) == old(sent(l.items)) && trlast(sent(l.items)).typ == itemError && trlen(sent(l.items)) == old(trlen(sent(l.items))) + 1
+
+//@ func (*lexer).accept
+//@   props C02
+//@   requires LexInv(l)
+//@   modifies l.pos, l.width
+//@   nopanic
+//@   ensures LexInv(l) && old(l.pos) <= l.pos
+
+//@ func (*lexer).acceptRun
+//@   props C02
+//@   requires LexInv(l)
+//@   modifies l.pos, l.width
+//@   nopanic
+//@   loop 0 invariant LexInv(l) && old(l.pos) <= l.pos
+//@   ensures LexInv(l) && old(l.pos) <= l.pos
+
+//@ func (*lexer).lineNumber
+//@   props C02 C12
+//@   requires l != nil && 0 <= l.lastPos && l.lastPos <= len(l.input)
+//@   nopanic
+//@   ensures [line-is-1-based] 1 <= result && result <= 1 + l.lastPos
+
+//@ func (*lexer).atTerminator
+//@   props C02
+//@   requires LexInv(l)
+//@   modifies l.pos, l.width
+//@   nopanic
+//@   ensures LexInv(l) && l.pos == old(l.pos)
+
+//@ func (*lexer).atRightDelim
+//@   props C02 C03
+//@   requires LexInv(l)
+//@   nopanic
+//@   ensures delim == AtRD(l) && trimSpaces == PrefixAt(l.input, l.pos, l.trimRightDelim)
+
+//@ func (*lexer).scanNumber
+//@   props C02
+//@   requires LexInv(l)
+//@   modifies l.pos, l.width
+//@   nopanic
+//@   ensures LexInv(l) && old(l.pos) <= l.pos
+
+//@ func rightTrimLength
+//@   props C03
+//@   nopanic
+//@   ensures [maximal-space-run] result == RTrimLen(s)
+
+//@ func leftTrimLength
+//@   props C03
+//@   nopanic
+//@   ensures [maximal-space-run] result == LTrimLen(s)
+
+// ---- construction and configuration ---------------------------------------------------------
+
+//@ func (*lexer).run
+//@   props C02
+//@   requires l != nil
+//@   nopanic
+
+//@ func lex
+//@   props C02 C03
+//@   requires !run
+//@   nopanic
+//@   ensures [fresh-lexer] fresh(result) && LexInv(result) && result.input == input && result.name == name && result.pos == 0 && result.start == 0 && result.lastPos == 0 && result.parenDepth == 0
+//@   ensures [default-delims-wellformed] Delims(result)
+//@   ensures [default-delims] result.leftDelim == "{{" && result.rightDelim == "}}" && result.leftComment == "{*" && result.rightComment == "*}"
+
+//@ pred GoodLeft(d string) := d == "" || NotCont(d[0])
+//@ pred GoodRight(d string) := d == "" || d[0] != ' '
+
+//@ func (*lexer).setDelimiters
+//@   props C03 C02
+//@   requires StateReq(l) && GoodLeft(leftDelim) && GoodRight(rightDelim)
+//@   modifies l.leftDelim, l.rightDelim, l.trimRightDelim
+//@   nopanic
+//@   ensures [trim-marker-tracks-right-delim] StateReq(l)
+//@   ensures [delims-configured] (leftDelim != "" ==> l.leftDelim == leftDelim) && (rightDelim != "" ==> l.rightDelim == rightDelim) && (leftDelim == "" ==> l.leftDelim == old(l.leftDelim)) && (rightDelim == "" ==> l.rightDelim == old(l.rightDelim))
+
+//@ func (*lexer).setCommentDelimiters
+//@   props C03 C02
+//@   requires StateReq(l) && GoodLeft(leftDelim)
+//@   modifies l.leftComment, l.rightComment
+//@   nopanic
+//@   ensures StateReq(l)
+//@   ensures [comment-delims-configured] (leftDelim != "" ==> l.leftComment == leftDelim) && (rightDelim != "" ==> l.rightComment == rightDelim) && (leftDelim == "" ==> l.leftComment == old(l.leftComment)) && (rightDelim == "" ==> l.rightComment == old(l.rightComment))
+
+// ---- the state machine -------------------------------------------------------------------------
+
+// Contract of whatever function is stored in lexer.state; every state function refines it.
+//@ func field:lexer.state
+//@   props C02 C03
+//@   params l
+//@   requires StateReq(l) && EntryOK(callee, l)
+//@   modifies l.pos, l.start, l.width, l.lastType, l.parenDepth, sent l.items
+//@   nopanic
+//@   ensures [state-machine-typing] StateReq(l) && IsStateFn(result) && EntryOK(result, l)
+
+//@ func (*lexer).run$1
+//@   props C02
+//@   requires StateReq(*l)
+//@   modifies *
+//@   nopanic
+//@   loop 0 invariant StateReq(*l) && IsStateFn((*l).state) && EntryOK((*l).state, *l)
+
+//@ func lexText
+//@   refines field:lexer.state
+//@   props C02 C03
+//@   loop 0 invariant LexInv(l) && l.start == old(l.start) && old(l.pos) <= l.pos && sent(l.items) == old(sent(l.items)) && NoMarker(l, old(l.pos), l.pos) && l.lastType == old(l.lastType) && l.parenDepth == old(l.parenDepth)
+//@   ensures [stops-at-first-marker] NoMarker(l, old(l.pos), l.pos) && (result == nil ==> l.pos == len(l.input)) && (result == lexLeftDelim ==> PrefixAt(l.input, l.pos, l.leftDelim)) && (result == lexComment ==> PrefixAt(l.input, l.pos, l.leftComment) && !PrefixAt(l.input, l.pos, l.leftDelim))
+//@   ensures [result-set] result == nil || result == lexLeftDelim || result == lexComment
+//@   ensures [text-before-comment-verbatim] result == lexComment ==> ite(l.pos > old(l.start), sent(l.items) == snoc(old(sent(l.items)), item{itemText, old(l.start), l.input[old(l.start):l.pos]}) && l.start == l.pos, sent(l.items) == old(sent(l.items)) && l.start == old(l.start))
+//@   ensures [text-before-action-trimmed] result == lexLeftDelim ==> l.start == l.pos && ite(PrefixAt(l.input, l.pos + len(l.leftDelim), "- "), ite(l.pos - RTrimLen(l.input[old(l.start):l.pos]) > old(l.start), sent(l.items) == snoc(old(sent(l.items)), item{itemText, old(l.start), l.input[old(l.start):l.pos - RTrimLen(l.input[old(l.start):l.pos])]}), sent(l.items) == old(sent(l.items))), ite(l.pos > old(l.start), sent(l.items) == snoc(old(sent(l.items)), item{itemText, old(l.start), l.input[old(l.start):l.pos]}), sent(l.items) == old(sent(l.items))))
+//@   ensures [text-at-eof-verbatim] result == nil ==> ite(len(l.input) > old(l.start), sent(l.items) == snoc(snoc(old(sent(l.items)), item{itemText, old(l.start), l.input[old(l.start):len(l.input)]}), item{itemEOF, len(l.input), l.input[len(l.input):len(l.input)]}), sent(l.items) == snoc(old(sent(l.items)), item{itemEOF, len(l.input), l.input[len(l.input):len(l.input)]}))
+
+//@ func lexLeftDelim
+//@   refines field:lexer.state
+//@   props C02 C03
+//@   ensures [left-delim-item] result == lexInsideAction && l.parenDepth == 0 && l.start == l.pos
+//@   ensures [left-trim-marker-consumed] l.pos == old(l.pos) + len(l.leftDelim) + ite(PrefixAt(l.input, old(l.pos) + len(l.leftDelim), "- "), 2, 0)
+//@   ensures sent(l.items) == snoc(old(sent(l.items)), item{itemLeftDelim, old(l.start), l.input[old(l.start):old(l.pos) + len(l.leftDelim)]})
+
+//@ func lexComment
+//@   refines field:lexer.state
+//@   props C02 C03
+//@   ensures [comment-emits-no-text] result == lexText ==> sent(l.items) == old(sent(l.items)) && l.start == l.pos
+//@   ensures [comment-ends-at-first-right-marker] result == lexText ==> PrefixAt(l.input, l.pos - len(l.rightComment), l.rightComment) && l.pos - len(l.rightComment) >= old(l.pos) + len(l.leftComment) && forall(q, old(l.pos) + len(l.leftComment), l.pos - len(l.rightComment), !PrefixAt(l.input, q, l.rightComment))
+//@   ensures [unclosed-comment-is-an-error] result == lexText || (result == nil && trlast(sent(l.items)).typ == itemError)
+
+//@ func lexRightDelim
+//@   refines field:lexer.state
+//@   props C02 C03
+//@   ensures result == lexText && l.start == l.pos
+//@   ensures [right-trim-removes-exactly-the-space-run] l.pos == old(l.pos) + len(l.rightDelim) + ite(old(PrefixAt(l.input, l.pos, " -")), 2 + LTrimLen(l.input[old(l.pos) + 2 + len(l.rightDelim):]), 0)
+//@   ensures [right-delim-item] trlast(sent(l.items)).typ == itemRightDelim && trinit(sent(l.items)) == old(sent(l.items))
+
+//@ func lexInsideAction
+//@   refines field:lexer.state
+//@   props C02 C03 C04
+//@   ensures [sign-after-operand-is-an-operator] old(!AtRD(l) && l.pos < len(l.input) && (l.input[l.pos] == '-' || l.input[l.pos] == '+') && OperandEnd(l.lastType)) ==> result == lexInsideAction && trlen(sent(l.items)) == old(trlen(sent(l.items))) + 1 && trlast(sent(l.items)).typ == ite(old(l.input[l.pos]) == '-', itemMinus, itemAdd) && l.pos == old(l.pos) + 1
+//@   ensures [unclosed-action-is-an-error] old(!AtRD(l) && l.pos >= len(l.input)) ==> result == nil && trlast(sent(l.items)).typ == itemError
+//@   ensures [right-delim-recognised] old(AtRD(l) && l.parenDepth == 0) ==> result == lexRightDelim && l.pos == old(l.pos) && sent(l.items) == old(sent(l.items))
+
+//@ func lexSpace
+//@   refines field:lexer.state
+//@   props C02 C03
+//@   loop 0 invariant LexInv(l) && l.start == old(l.start) && old(l.pos) <= l.pos && sent(l.items) == old(sent(l.items)) && l.pos > l.start && numSpaces >= 0
+//@   ensures result == lexInsideAction || result == lexRightDelim
+
+//@ func lexIdentifier
+//@   refines field:lexer.state
+//@   props C02
+//@   loop 0 invariant LexInv(l) && l.start == old(l.start) && sent(l.items) == old(sent(l.items)) && ((l.pos == old(l.pos) && l.pos < len(l.input) && IsAlnum(DecRune(l.input[l.pos:]))) || l.pos > l.start)
+//@   ensures result == lexInsideAction || (result == nil && trlast(sent(l.items)).typ == itemError)
+
+//@ func lexField
+//@   refines field:lexer.state
+//@   props C02
+//@   loop 0 invariant LexInv(l) && l.start == old(l.start) && sent(l.items) == old(sent(l.items)) && old(l.pos) <= l.pos
+//@   ensures result == lexInsideAction || (result == nil && trlast(sent(l.items)).typ == itemError)
+
+//@ func lexChar
+//@   refines field:lexer.state
+//@   props C02
+//@   loop 0 invariant LexInv(l) && l.start == old(l.start) && sent(l.items) == old(sent(l.items)) && old(l.pos) <= l.pos
+//@   ensures [unterminated-char-is-an-error] result == lexInsideAction || (result == nil && trlast(sent(l.items)).typ == itemError)
+
+//@ func lexNumber
+//@   refines field:lexer.state
+//@   props C02
+//@   ensures result == lexInsideAction || (result == nil && trlast(sent(l.items)).typ == itemError)
+
+//@ func lexQuote
+//@   refines field:lexer.state
+//@   props C02
+//@   loop 0 invariant LexInv(l) && l.start == old(l.start) && sent(l.items) == old(sent(l.items)) && old(l.pos) <= l.pos
+//@   ensures [unterminated-string-is-an-error] result == lexInsideAction || (result == nil && trlast(sent(l.items)).typ == itemError)
+
+//@ func lexRawQuote
+//@   refines field:lexer.state
+//@   props C02
+//@   loop 0 invariant LexInv(l) && l.start == old(l.start) && sent(l.items) == old(sent(l.items)) && old(l.pos) <= l.pos
+//@   ensures [unterminated-raw-string-is-an-error] result == lexInsideAction || (result == nil && trlast(sent(l.items)).typ == itemError)
